@@ -497,6 +497,19 @@ def r5(ctx, R):
     if cfg.exit in r:
         R.bad(fi, cfg.nodes[tests[0]].ast, "a failed evaluation can return normally (error swallowed)",
               path=q.explain_path(fi, [b for b, l in cfg.succ[tests[0]] if l == "T"], [cfg.exit]))
+    tm = ctx.func("ErrorStack.tracemessage")
+    R.inst("ErrorStack.tracemessage: the formula source is appended only when there is one")
+    for x in walk_local(tm.node):
+        if isinstance(x, (ast.BinOp, ast.AugAssign)) and isinstance(getattr(x, "op", None), ast.Add):
+            ops = [x.left, x.right] if isinstance(x, ast.BinOp) else [x.value]
+            for o in ops:
+                if q.rnorm(tm, o).endswith(".formula.source"):
+                    st_ = x if isinstance(x, ast.stmt) else None
+                    g = q.guards_of(tm, x)
+                    if not any((t.endswith("formula.source is not None") and l == "T") or (t.endswith("formula.source is None") and l == "F")
+                               or (t.endswith("formula.source") and l == "T") for t, l in g):
+                        R.bad(tm, x, "the error message concatenates formula.source, which is None for a function without "
+                                     "retrievable source: the top-level call raises TypeError instead of FormulaError")
     R.inst("_start_exec: the test on excinfo dominates the normal return of the buffer")
     rets = [r_ for r_ in q.returns(fi) if r_.value is not None and q.mentions_attr(r_.value, "buffer")]
     R.must(rets, "return self.buffer not found")
